@@ -51,7 +51,16 @@ def prayer_times_dt_wiring(prog, weather_given):
     I.stubs["from_jd"] = rec("from_jd", lambda a, s: tadv)
     I.stubs["get_hours_adj_ext"] = rec("ghae", lambda a, s: hours)
     I.stubs["get_imsaak"] = rec("imsaak", lambda a, s: ims)
-    I.stubs["to_prayer_time"] = rec("tpt", lambda a, s: Struct("PrayerTime", (Opaque(("time", len(s.log))), a[2].fields[1])))
+    tpt_ret = prog.find_body("to_prayer_time").ret_ty
+
+    def tpt_val(a, s):
+        v = Struct("PrayerTime", (Opaque(("time", len(s.log))), a[2].fields[1]))
+        if tpt_ret.lstrip().startswith(("Result<", "std::result::Result<")):
+            return Enum("Result", 0, {"Ok": (v,)})
+        if tpt_ret.lstrip().startswith(("Option<", "std::option::Option<")):
+            return Enum("Option", 1, {"Some": (v,)})
+        return v
+    I.stubs["to_prayer_time"] = rec("tpt", tpt_val)
 
     def mf(m):
         return {"lat": mval(m, lat), "gmt": mval(m, gmt)}
@@ -318,3 +327,133 @@ def _flat(v):
     if isinstance(v, Date):
         return [v.rd]
     return [v]
+
+
+def astro_day_wiring(prog, _):
+    """AstroDay::new(jd) evaluates the ephemeris exactly at jd-1, jd, jd+1 (in this order) and keeps the Julian day;
+    TopAstroDay::from_jd(jd, coords) = from_ad(AstroDay::new(jd), coords). No other state is consulted."""
+    t0 = time.time()
+    res = new_res("AstroDay::new = [Astro::new(jd-1), Astro::new(jd), Astro::new(jd+1)]; from_jd = from_ad(AstroDay::new(jd), coords)",
+                  ["AstroDay::new", "TopAstroDay::from_jd"])
+    S = smt.Smt()
+    I = interp.Interp(prog, mode="sym", smt=S)
+    st = interp.State()
+    v, g = z3.Real("jd_v"), z3.Real("jd_g")
+    jd = Struct("JulianDay", [Date(z3.Int("jd_rd")), Struct("Gmt", (g,)), v])
+    lat, lon, elev = z3.Real("lat"), z3.Real("lon"), z3.Real("elev")
+    coords = Struct("Coordinates", [Struct("Latitude", (lat,)), Struct("Longitude", (lon,)), Struct("Elevation", (elev,))])
+
+    def stub_astro_new(I2, st2, args, callee):
+        n = len([x for x in st2.log if x[0] == "astro"])
+        st2.log.append(("astro", args[0]))
+        return [(None, ("ret", mk_astro(I2, Fraction(0), z3.Real("an_dec%d" % n), z3.Real("an_ra%d" % n), z3.Real("an_rs%d" % n), z3.Real("an_sid%d" % n))))]
+    I.stubs["Astro::new"] = stub_astro_new
+    marker = Opaque("from_ad result")
+
+    def stub_from_ad(I2, st2, args, callee):
+        st2.log.append(("from_ad",) + tuple(args))
+        return [(None, ("ret", marker))]
+    I.stubs["from_ad"] = stub_from_ad
+    outs = I.run_body(prog.find_body("TopAstroDay::from_jd"), [jd, coords], st=st)
+    for o in std_path_checks(res, I, S, outs, lambda m: {}):
+        calls = [x for x in o.st.log if x[0] == "astro"]
+        fa = [x for x in o.st.log if x[0] == "from_ad"]
+        bad = []
+        if len(calls) != 3 or len(fa) != 1 or o.value is not marker:
+            bad.append("ephemeris not evaluated exactly three times / from_ad not called exactly once")
+        else:
+            conds = [to_z3(calls[0][1]) == v - 1, to_z3(calls[1][1]) == v, to_z3(calls[2][1]) == v + 1]
+            ad = fa[0][1]
+            names = I.prog.structs["AstroDay"]
+            av = ad.fields[names.index("astros")]
+            jv = ad.fields[names.index("julian_day")]
+            conds.append(to_z3(jv.fields[2]) == v)
+            if len(av.items) != 3:
+                bad.append("AstroDay does not hold three ephemeris points")
+            cc = fa[0][2]
+            conds += [to_z3(cc.fields[0].fields[0]) == lat, to_z3(cc.fields[1].fields[0]) == lon, to_z3(cc.fields[2].fields[0]) == elev]
+            r, m = S.check(o.st.pc + [z3.Not(z3.And(conds))], timeout_ms=30000, want_model=True)
+            if r == "sat":
+                bad.append("ephemeris evaluated at the wrong Julian days or for other coordinates")
+            elif r == "unknown":
+                res["inconclusive"].append("astro-day wiring query undecided")
+        if bad:
+            res["cands"].append({"what": "; ".join(bad), "inputs": {}})
+    return finish(res, I, S, t0)
+
+
+def stub_ephemeris(I):
+    """Astro::new(jd) -> a fresh symbolic ephemeris point (any extra ephemeris evaluation a changed tree performs is unconstrained)."""
+    cnt = [0]
+
+    def stub_astro_new(I2, st2, args, callee):
+        cnt[0] += 1
+        k = "x%d" % cnt[0]
+        a = {n: z3.Real("%s_%s" % (n, k)) for n in ("dra", "dec", "ra", "rsum", "sid")}
+        st2.add([a["dec"] >= -Fraction(42, 100), a["dec"] <= Fraction(42, 100), a["ra"] >= 0, a["ra"] <= 360, a["sid"] >= 0, a["sid"] <= 360])
+        st2.log.append(("astro_new", args[0]))
+        return [(None, ("ret", mk_astro(I2, a["dra"], a["dec"], a["ra"], a["rsum"], a["sid"])))]
+    I.stubs["Astro::new"] = stub_astro_new
+
+
+def tfi_wiring(prog, _):
+    """test_fajr_isha(params, coords, weather, jd) = Some(get_hours(params, &from_jd(jd, coords), weather)) iff both twilights of that
+    very map are Ok, None otherwise - nothing else (no second validity criterion) decides whether a date is a 'good day' (C09)."""
+    t0 = time.time()
+    res = new_res("test_fajr_isha = Some(hours) iff Fajr and Isha of get_hours(from_jd(jd, coords)) are both Ok", ["test_fajr_isha"])
+    S = smt.Smt()
+    I = interp.Interp(prog, mode="sym", smt=S)
+    st = interp.State()
+    hours, info = sym_hours(I, st, "tfi", dhuhr_ok=False)
+    lat, lon, elev = z3.Real("lat"), z3.Real("lon"), z3.Real("elev")
+    st.add([lat >= -90, lat <= 90, lon >= -180, lon <= 180, elev >= -420, elev <= 8848])
+    coords = Struct("Coordinates", [Struct("Latitude", (lat,)), Struct("Longitude", (lon,)), Struct("Elevation", (elev,))])
+    v, g = z3.Real("jd_v"), z3.Real("jd_g")
+    st.add([g >= -12, g <= 12, v >= 2305000, v <= 2598000])
+    jd = Struct("JulianDay", [Date(z3.Int("jd_rd")), Struct("Gmt", (g,)), v])
+    aF, aI, aM = z3.Real("angF"), z3.Real("angI"), z3.Real("angM")
+    st.add([aF >= 0, aF <= 24, aI >= 0, aI <= 24, aM >= 0, aM <= 5])
+    params = mk_params(I, "None", {p: Fraction(0) for p in PRAYERS}, ext="NearestGoodDayFajrIshaInvalid",
+                       angles={"Imsaak": aM, "Fajr": aF, "Isha": aI})
+    pc_ = st.alloc(params)
+    weather = weather_default(I)
+    tadm = Opaque("tad")
+
+    def stub_from_jd(I2, st2, args, callee):
+        st2.log.append(("from_jd",) + tuple(args))
+        return [(None, ("ret", tadm))]
+
+    def stub_get_hours(I2, st2, args, callee):
+        p, tadref, w = args
+        st2.log.append(("get_hours", p, I2.read(st2, tadref.cell, tadref.path), w))
+        return [(None, ("ret", hours))]
+    I.stubs["from_jd"] = stub_from_jd
+    I.stubs["get_hours"] = stub_get_hours
+    stub_ephemeris(I)
+    outs = I.run_body(prog.find_body("test_fajr_isha"), [Ref(pc_, ()), coords, weather, jd], st=st)
+
+    def mf(m):
+        return {"lat": mval(m, lat), "lon": mval(m, lon), "fajr_ok": mval(m, info["Fajr"][0]), "isha_ok": mval(m, info["Isha"][0])}
+    both = z3.And(info["Fajr"][0], info["Isha"][0])
+    for o in std_path_checks(res, I, S, outs, mf):
+        fj = [x for x in o.st.log if x[0] == "from_jd"]
+        gh = [x for x in o.st.log if x[0] == "get_hours"]
+        shape = (len(fj) == 1 and len(gh) == 1 and fj[0][1] is jd and fj[0][2] is coords and isinstance(gh[0][1], Ref) and gh[0][1].cell == pc_
+                 and gh[0][2] is tadm and gh[0][3] is weather)
+        val = o.value
+        is_some = isinstance(val, Enum) and val.disc
+        if not isinstance(val, Enum):
+            res["inconclusive"].append("unexpected return value %r" % (val,))
+            continue
+        some = to_z3(val.disc) == 1 if is_sym(val.disc) else z3.BoolVal(val.disc == 1)
+        same = True
+        if "Some" in val.pay and val.pay["Some"]:
+            same = val.pay["Some"][0] is hours
+        good = z3.And(some == both, z3.BoolVal(bool(shape)), z3.Implies(some, z3.BoolVal(bool(same))))
+        r, m = S.check(o.st.pc + [z3.Not(good)], timeout_ms=30000, want_model=True)
+        if r == "sat":
+            res["cands"].append({"what": "a date is accepted/rejected as a good day by something other than the validity of its own Fajr and Isha",
+                                 "inputs": mf(m), "tfi": True})
+        elif r == "unknown":
+            res["inconclusive"].append("test_fajr_isha oracle undecided")
+    return finish(res, I, S, t0)
